@@ -4,7 +4,7 @@ mod model;
 mod ops;
 mod snapshot;
 
-use check::{check, Case};
+use check::{check, minimize, Case};
 use icyv::proptest::prelude::*;
 use icyv::serde_json::json;
 use icyv::{Engine, PartCfg};
@@ -124,11 +124,11 @@ fn main() {
     let per_doc = if eng.is_thorough() { r + r * r + r * r * r } else { r + r * r };
     eng.enumerated(PartCfg::new("exhaustive_short", 0, 0).exhaustive(true), 2 * per_doc, move |i| enumerated_case(i, r, per_doc, &alpha), check);
 
-    eng.generated(PartCfg::new("histories", 60_000, 1_000_000).shrink_budget(3000), || cases(Vec::new(), 0), check);
+    eng.generated_min(PartCfg::new("histories", 60_000, 1_000_000).shrink_budget(1200), || cases(Vec::new(), 0), check, |_| "-".to_string(), minimize);
     let av = avoid.clone();
-    eng.generated(PartCfg::new("bulk", 240_000, 4_000_000).shrink_budget(3000), move || cases(av.clone(), 0), check);
+    eng.generated_min(PartCfg::new("bulk", 240_000, 4_000_000).shrink_budget(1200), move || cases(av.clone(), 0), check, |_| "-".to_string(), minimize);
     // flip_x / flip_y rebuild the glyph flip tables of every font on each call (25-90 ms): own, smaller part
     let av = avoid.clone();
-    eng.generated(PartCfg::new("flip_histories", 2_500, 40_000).shrink_budget(400), move || cases(av.clone(), 30), check);
+    eng.generated_min(PartCfg::new("flip_histories", 2_500, 40_000).shrink_budget(150), move || cases(av.clone(), 30), check, |_| "-".to_string(), minimize);
     eng.run();
 }
